@@ -242,8 +242,8 @@ class Unsigned(BitVector):
             rhs = self.to_int()
         elif isinstance(lhs, (int, Integer)):
             result_width = 2 * self.width
+            lhs = int(lhs)
             rhs = self.to_int()
-            lhs = int(rhs)
         else:
             return NotImplemented
 
